@@ -4,7 +4,7 @@ import itertools
 import numpy as np
 import torch
 
-from _lib import handler, arr, num, close, patched, gram_to_matrix, dist_to_matrix, t64, expect_value_error, HANDLERS
+from _lib import handler, arr, num, close, patched, gram_to_matrix, dist_to_matrix, t64, expect_value_error, HANDLERS, FixedStream
 
 
 def qp_reference(P, u):
@@ -142,12 +142,15 @@ def r_row_perm_entry(c):
         A2 = make_agg("config", m, None, None if vec is None else [vec[perm[i]] for i in range(m)])
         o1, o2 = A1(t64(J)).numpy(), A2(t64(J[perm])).numpy()
     else:  # graddrop under a fixed stream
-        U = t64(np.asarray(arr(c["U"]), dtype=float))
+        fs = FixedStream(np.asarray(arr(c["U"]), dtype=float))
         leak = c.get("leak")
         A1 = make_agg("graddrop", m, None, leak)
         A2 = make_agg("graddrop", m, None, None if leak is None else [leak[perm[i]] for i in range(m)])
-        with patched(torch, "rand", lambda *a, **k: U):
-            o1, o2 = A1(t64(J)).numpy(), A2(t64(J[perm])).numpy()
+        with patched(torch, "rand", fs):
+            fs.reset()
+            o1 = A1(t64(J)).numpy()
+            fs.reset()
+            o2 = A2(t64(J[perm])).numpy()
     return dict(reproduced=not close(o1, o2, 1e-6), out=o1.tolist(), out_permuted=o2.tolist())
 
 
@@ -174,17 +177,36 @@ def r_row_perm_krum(c):
 def r_impartial(c):
     agg = c["agg"]
     if agg == "imtlg":
+        def clause(J):
+            G = J @ J.T
+            A = make_agg("imtlg", J.shape[0])
+            w = A.weighting(t64(J)).numpy()
+            nr = np.sqrt(np.diag(G))
+            proj = (G @ w) / nr
+            bad = []
+            if abs(w.sum() - 1) > 1e-6:
+                bad.append(f"weights sum to {w.sum()}")
+            if np.max(np.abs(proj - proj[0])) > 1e-6 * max(1.0, np.abs(proj).max()):
+                bad.append(f"projections differ: {proj.tolist()}")
+            return bad, w, G
         J = gram_to_matrix(c["G"])
-        G = J @ J.T
-        A = make_agg("imtlg", J.shape[0])
-        w = A.weighting(t64(J)).numpy()
-        nr = np.sqrt(np.diag(G))
-        proj = (G @ w) / nr
-        bad = []
-        if abs(w.sum() - 1) > 1e-6:
-            bad.append(f"weights sum to {w.sum()}")
-        if np.max(np.abs(proj - proj[0])) > 1e-6 * max(1.0, np.abs(proj).max()):
-            bad.append(f"projections differ: {proj.tolist()}")
+        bad, w, G = clause(J)
+        if not bad and c.get("any_pinv"):
+            # the model's pinv was an arbitrary kernel, so its Gramian need not be a witness for the real pinv: search well-conditioned random
+            # full-row-rank matrices for one on which the stated clause fails with the real kernel (the normalisation must be well defined on it)
+            rng = np.random.default_rng(0)
+            for trial in range(4000):
+                Jr = rng.normal(size=(J.shape[0], J.shape[0] + rng.integers(0, 2)))
+                Gr = Jr @ Jr.T
+                if np.linalg.cond(Gr) > 1e6:
+                    continue
+                v = np.linalg.solve(Gr, np.sqrt(np.diag(Gr)))
+                if abs(v.sum()) < 1e-3 * np.abs(v).sum():
+                    continue
+                b2, w2, _ = clause(Jr)
+                if b2:
+                    return dict(reproduced=True, why=b2, weights=w2.tolist(), J=Jr.tolist(), found_by="search over random well-conditioned matrices")
+            return dict(reproduced=False, why=[], searched=4000)
         key = None
         if bad and not np.any(w):
             d = torch.linalg.norm(t64(J), dim=1)
@@ -276,9 +298,11 @@ def r_homog_entry(c):
     m = J.shape[0]
     U = t64(np.asarray(arr(c["U"]), dtype=float)) if c.get("U") else None
     A = _agg_from_c11(dict(c, leak=any(k.startswith("leak") and v is not None for k, v in (c.get("params") or {}).items())), m)
+    fs = FixedStream(U.numpy()) if U is not None else None
     def run(X):
-        if U is not None and c["agg"] == "graddrop":
-            with patched(torch, "rand", lambda *a, **k: U[:X.shape[1]]):
+        if fs is not None and c["agg"] == "graddrop":
+            fs.reset()
+            with patched(torch, "rand", fs):
                 return A(t64(X)).numpy()
         return A(t64(X)).numpy()
     o1, o2 = run(J), run(J * t)
